@@ -25,6 +25,12 @@ CLAIMS = {
          "Partial coverage as stated."),
  "C14": ("proof", "The Descriptor of every leaf codec is proved to be exactly the table entry of the property statement (field type, every other attribute zero). Struct/slice/map/pointer/time/null descriptors not yet under contract.",
          "Partial coverage as stated."),
+ "C06": ("proof", "(*Plenc).Marshal is proved to return, on success, a slice at least as long as the destination buffer whose first len(buf) bytes are the buffer's (for every registered or built codec obeying the interface contract, every buffer and capacity, including values that encode to nothing - the omit branch defect found here was repaired by a fix: commit); every leaf Append is proved to be old(data) ++ a byte sequence that is a function of the value and the tag alone; plenc.Marshal is proved to forward to the default instance. By-value versus by-pointer equivalence is outside the engine's model of interface values and is not decided.",
+         "The bytes appended by composite codecs are those of their (interface-level) Append contract; determinism of composite encoders rests on contracts not yet written. The pointer-shaped by-value crash noted in the property is not reachable by this technique."),
+ "C17": ("proof", "CodecForTypeRegistry is proved to return an existing registration for exactly (type, tag) before any kind-based default, and - for each of the 14 basic kinds - to succeed exactly when the codec registered on the same instance for the corresponding basic type under the same tag exists and then to return that codec (specified as a table written from the property statement, over an abstract reflect.Type). Every instance method of Plenc is proved (on its SSA, including inlined helpers) to reference no package-level variable, and each package-level function is proved to be a plain forwarding call on the default instance.",
+         "sync.Map is abstract (Load is a pure function of the map, the key and the heap); isolation between two registries therefore rests on the no-package-variable frame, not on a model of sync.Map."),
+ "C08": ("proof", "The dispatcher CodecForTypeRegistry is proved, over an abstract reflect.Type (every kind, every tag), never to panic, to return exactly one of a non-nil codec and an error, to reject the unsupported kinds (invalid, uintptr, complex, array, chan, func, interface, unsafe pointer) with an error and never to store a nil codec. BuildStructCodec / BuildMapCodec (tag parsing, duplicate and negative indexes, skipped fields, nesting restrictions) are not yet under contract.",
+         "Partial: constructors of struct and map codecs are assumed to return a codec or an error."),
 }
 
 NA = {
